@@ -150,21 +150,13 @@ theorem hostname_listed_sqlite (s : Sqlite.St D) (b : String) (h : b ∈ (Reads.
   | none => simp [hf] at h
   | some r => exact ⟨r.md, _, rfl, rfl⟩
 
-/-- with a start bound the sqlite count needs no epoch hypothesis: the count over the requested
-    window never exceeds the number of events `query_bucket` returns -/
+/-- the count over the requested window never exceeds the number of events `query_bucket`
+    returns (an instance of `Sqlite.count_le_get_rounded`, which since the repair F22 carries no
+    hypothesis about the epoch) -/
 theorem Sqlite.count_le_get_rounded_some (s : Sqlite.St D) (b : String) (S E : Int) :
     Sqlite.getEventcount s b (some S) (some E) ≤
-      (Sqlite.getEvents s b (-1) (Store.roundWin (some S) (some E)).1 (Store.roundWin (some S) (some E)).2).length := by
-  rw [← Sqlite.count_eq]
-  unfold Sqlite.getEventcount
-  cases Sqlite.rowOf s b with
-  | none => exact Nat.le_refl _
-  | some r =>
-    refine length_filter_mono _ _ _ (fun row _ h => ?_)
-    have h1 := Store.floorMs_le S
-    have h2 := Store.lt_floorMs_add E
-    simp only [Store.roundWin, Option.map_some, Bool.and_eq_true, decide_eq_true_eq] at h ⊢
-    omega
+      (Sqlite.getEvents s b (-1) (Store.roundWin (some S) (some E)).1 (Store.roundWin (some S) (some E)).2).length :=
+  Sqlite.count_le_get_rounded s b (some S) (some E)
 
 /-! ### memory -/
 
